@@ -299,7 +299,7 @@ func TestC20(t *testing.T) {
 	r := vh.New(t, "C20", "locks")
 	r.Coq("From Verif Require Import Base.LockOrder Calcium.Locks.", "Locks.case", "Locks.agree", "Locks.ok")
 	r.Shard = 100
-	nOps := r.N(330, 5000)
+	nOps := r.N(330, 3000)
 	rng := func(n int) int { return r.Rng.Intn(n) }
 
 	emitted := 0
